@@ -35,16 +35,21 @@ mkdir -p model/gen
   else rm -f Extract.v.new; fi
 )
 
-# 3. OCaml driver
+# 3. OCaml driver (rebuilt only when its inputs changed; installed atomically)
 ( cd model
+  sum=$(cat gen/*.ml gen/*.mli common.ml drv_*.ml main.ml | md5sum | cut -d' ' -f1)
+  if [ -x main.native ] && [ "$(cat .build.sum 2>/dev/null)" = "$sum" ]; then exit 0; fi
   rm -rf _build; mkdir -p _build
   cp gen/*.ml gen/*.mli common.ml drv_*.ml main.ml _build/
   cd _build
   gens=$(ocamlfind ocamldep -sort $(ls ../gen/*.ml ../gen/*.mli | xargs -n1 basename) 2>/dev/null)
-  timeout 900 ocamlfind ocamlopt -O2 -w -a -o ../main.native $gens common.ml $(ls drv_*.ml) main.ml > ../ocaml.log 2>&1 \
-   || timeout 900 ocamlfind ocamlopt -w -a -o ../main.native $gens common.ml $(ls drv_*.ml) main.ml > ../ocaml.log 2>&1 \
-   || { echo "setup: ocaml build FAILED"; head -30 ../ocaml.log; exit 1; }
-)
+  if timeout 900 ocamlfind ocamlopt -O2 -w -a -o main.native.new $gens common.ml $(ls drv_*.ml) main.ml > ../ocaml.log 2>&1 \
+   || timeout 900 ocamlfind ocamlopt -w -a -o main.native.new $gens common.ml $(ls drv_*.ml) main.ml > ../ocaml.log 2>&1; then
+    mv main.native.new ../main.native; echo "$sum" > ../.build.sum
+  else
+    echo "setup: ocaml build FAILED"; head -30 ../ocaml.log; rm -f ../main.native ../.build.sum; exit 1
+  fi
+) || exit 1
 [ -x model/main.native ] || exit 1
 [ "$COQ_FAIL" = 0 ] || exit 1
 echo "setup: ok"
